@@ -165,6 +165,11 @@ class Requests(Part):
                 return v
             problem.predict = predict_hook
         problem.surrogate = sur
+        # the statistics switch of the surrogate classes is a public option: the counter laws do not depend on it
+        # (not for SurrogateModelScikit: with the switch off its train() compares the never-computed score None with the threshold and raises
+        # TypeError on the pinned tree -- an observation recorded in DESIGN.md section 6, outside what C19 quantifies over)
+        if case["cseed"] % 4 == 2 and fl != "scikit":
+            sur.eval_stats = False
         vpool = [[round(rng.uniform(-5, 5), 3), round(rng.uniform(-5, 5), 3)] for _ in range(rng.choice([1, 2, 3, 50]))]
         pre = 0
         if fl != "eval" and case["cseed"] % 4 == 0:
